@@ -97,6 +97,13 @@ def engines():
                                                 {"name": "P", "terms": [("Constant", "a", 0.5), ("Linear", "b", [2.0, 0.25])], "aggregation": None, "defuzzifier": ("WeightedSum",)}],
                                     "blocks": [{"conjunction": None, "disjunction": None, "implication": None,
                                                 "rules": ["if X is a then O is a and P is b", "if X is any then O is b and P is a with 0.5"]}]}
+    # a Linear term with a ZERO coefficient for an input its rule does not read: 0 * NaN is NaN row by row - and in a batch, whatever
+    # the other rows hold
+    E["takagi-sugeno-zero-coefficient"] = {"inputs": [{"name": "X", "terms": IN_TERMS}, {"name": "Y", "terms": IN_TERMS}],
+                                           "outputs": [{"name": "O", "terms": [("Linear", "a", [1.5, 0.0, 0.25]), ("Constant", "b", 0.75)], "aggregation": None,
+                                                        "defuzzifier": ("WeightedAverage",)}],
+                                           "blocks": [{"conjunction": None, "disjunction": None, "implication": None,
+                                                       "rules": ["if X is a then O is a", "if X is b then O is b"]}]}
     # input terms with an x-dependent denominator or several np.where branches evaluated on every x (a plain Python float divides
     # by zero where an array gives inf and discards it)
     E["rational-input-terms"] = {
